@@ -13,7 +13,15 @@ ENC = {
     "str": {100: "a", 101: "b", 102: "c"},
     "int": {3: 3, 7: 7, 9: 9},
 }
-TOL = 1e-12
+# Measured on the clean tree (9000 generated cases, seeds 0..2): max |fairlearn - exact Fraction| = 7.7e-16 (one float
+# division of exactly represented sums; mean_prediction of labels up to 9), max |TPR+FNR-1| = 0.  Tolerance = 65 x that.
+TOL = 5e-14
+
+
+def far(x, y):
+    """NaN-safe `|x - y| > TOL`: a NaN on either side is FAR (a plain `abs(nan - y) > TOL` is False and would let a NaN
+    returned by the implementation pass every value comparison)."""
+    return not (abs(x - y) <= TOL)
 
 # sha256 of lean/FairModel/Generated/BaseMetricsSrc.lean as translated from the pinned tree.  While the translation is
 # unchanged, a disagreement between the translated functions (driver ops `bms.*`) and the first-principles oracle is a
@@ -95,10 +103,14 @@ class CHECK(Check):
     technique = ("Lean 4 theorems over the BaseMetrics model and over the statement-by-statement TRANSLATION of _base_metrics.py "
                  "(lifter base_metrics.py -> Generated/BaseMetricsSrc.lean, proved equal to the model) + compiled-driver "
                  "correspondence with the 7 public functions")
-    level_text = ("Theorems (all inputs, no size bound): rates in [0,1], TPR+FNR / TNR+FPR = 1 or both 0, pos_label swap, "
-                  "rejection rules of _get_labels_for_confusion_matrix, selection_rate/mean_prediction/count definitions. "
+    level_text = ("Theorems (all inputs, no size bound): rates in [0,1], TPR+FNR / TNR+FPR = 1 or both 0 (also at the level of the "
+                  "public functions in terms of 'a row of that class exists', positive weights), every rate = weight of one cell / "
+                  "weight of the whole true class for any accepted labelling, pos_label swap for two observed values and for "
+                  "single-valued vectors, accepted encodings and rejection rules of _get_labels_for_confusion_matrix, "
+                  "selection_rate/mean_prediction as division-free unique quotients in range, count; totalisation witnesses "
+                  "(zero weights, empty input, sentinel label) replayed on fairlearn. "
                   "Tie: the 7 public functions vs the compiled Lean model on generated + exhaustive small inputs, value "
-                  "within 1e-12 and scalar-ness of the returned object; independent Fraction oracle decides violations. "
+                  "within 5e-14 (measured 7.7e-16) and scalar-ness of the returned object; independent Fraction oracle decides violations. "
                   "Translator tie: the bodies of _get_labels_for_confusion_matrix, the four rates, count, mean_prediction and "
                   "selection_rate are translated on every run into Lean do-notation over numpy/sklearn primitives "
                   "(Model/NumpySk.lean); src_*_eq_model prove the translation equal to the hand-written model, the property "
@@ -114,14 +126,17 @@ class CHECK(Check):
             "functions called; distinct = distinct (encoding, vectors, weights, pos_label); non-trivial = at least 2 rows "
             "or weighted; thorough additionally enumerates all vectors up to length 5 over {0,1} with weights in {none,{1,2}}")
     explanation = ("theorems over the Lean model BaseMetrics (all inputs); correspondence: 7 public functions vs compiled "
-                   "driver, value within 1e-12 and scalar-ness of the return value; oracle: first-principles Fractions")
+                   "driver, value within 5e-14 (measured max deviation 7.7e-16; NaN counts as a deviation) and scalar-ness of the return value; oracle: first-principles Fractions")
     trusted = ("sklearn.metrics.confusion_matrix(normalize='true') incl. nan_to_num of empty rows (modelled by `ratio`)",
                "the numpy/sklearn primitives of Model/NumpySk.lean (np.dot, .sum(), np.ones, ==, np.unique, np.vstack, "
                "frozenset.issuperset, confusion_matrix(labels=, sample_weight=, normalize=).ravel()) are specifications; sklearn's "
                "'At least one label specified must be in y_true' error is not modelled (unreachable from the unchanged code)",
                "harness/lifters/base_metrics.py: the Python-ast -> Lean do-notation translation of the eight function bodies",
                "string labels are mapped order-preservingly to integers 100.. before entering the model")
-    assumptions = ("weights are positive", "labels of one call share a type")
+    assumptions = ("weights are positive (all-zero weights: sklearn raises, zero total weight: numpy NaN — the Lean model is "
+                   "total there, see the TOTALISATION block of Properties/C14.lean)", "labels of one call share a type",
+                   "no label equals np.iinfo(np.int64).min, the sentinel the code pairs a single observed label with "
+                   "(C14.sentinel_label_deviates)", "mean_prediction is not called on string labels")
 
     # ---------------------------------------------------------------- generation
     def generate(self, rng, tier):
@@ -262,7 +277,7 @@ class CHECK(Check):
                     probs.append(Problem("property", f"{k}: valid input raised {got}", "C14.accepts"))
                 elif got[0] != "scalar":
                     probs.append(Problem("property", f"{k}: result is not a scalar: {got}", "C14.scalar_result"))
-                elif abs(got[1] - float(want)) > TOL:
+                elif far(got[1], float(want)):
                     probs.append(Problem("property", f"{k}: got {got[1]!r}, first-principles value {want}", "C14.value"))
             if mo is not None:
                 ms = mo[i]
@@ -285,7 +300,7 @@ class CHECK(Check):
                         if ss.startswith("err"):
                             agree = got[0] == "exc"
                         else:
-                            agree = got[0] == "scalar" and abs(got[1] - float(proto.p_rat(ss))) <= TOL
+                            agree = got[0] == "scalar" and not far(got[1], float(proto.p_rat(ss)))
                         if not agree:
                             probs.append(Problem("correspondence", f"{k}: implementation {got} vs translated source {ss}",
                                                  "C14.source_translation"))
@@ -304,19 +319,24 @@ class CHECK(Check):
                 target = lab[1] if cls == "pos" else lab[0]
                 exists = any(t == target for t in yt)
                 s = x + y
-                if exists and abs(s - 1) > TOL:
+                if exists and far(s, 1):
                     probs.append(Problem("property", f"{a}+{b_} = {s} but a {cls} row exists (pos_label={pl})", "C14.tpr_add_fnr"))
-                if not exists and (abs(x) > TOL or abs(y) > TOL):
+                if not exists and (far(x, 0) or far(y, 0)):
                     probs.append(Problem("property", f"{a},{b_} = {x},{y} but no {cls} row exists", "C14.tpr_add_fnr"))
                 for v in (x, y):
                     if not (-TOL <= v <= 1 + TOL):
                         probs.append(Problem("property", f"rate {v} outside [0,1]", "C14.rate_in_unit_interval"))
         pls = [p for p in self._pls(case) if p is not None]
-        if len(pls) == 2 and len(set(yt) | set(yp)) == 2:
+        # two observed values (C14.pos_label_swap_public) or ONE observed value, the other class unobserved
+        # (C14.pos_label_swap_single): both are inside the property's quantifier
+        # (the single observed value must be one of the two pos_labels: switching between two UNOBSERVED classes leaves it the
+        # negative class both times and exchanges nothing — false alarm found by the review's own x3-budget run and removed)
+        obs = set(yt) | set(yp)
+        if len(pls) == 2 and (len(obs) == 2 or (len(obs) == 1 and next(iter(obs)) in pls)):
             a, b_ = pls
             for k1, k2 in (("tpr", "tnr"), ("fpr", "fnr"), ("tnr", "tpr"), ("fnr", "fpr")):
                 x, y = val(f"{k1}@{a}"), val(f"{k2}@{b_}")
-                if x is not None and y is not None and abs(x - y) > TOL:
+                if x is not None and y is not None and far(x, y):
                     probs.append(Problem("property", f"{k1}@{a}={x} != {k2}@{b_}={y}", "C14.pos_label_swap"))
         return probs
 
